@@ -1,5 +1,6 @@
 import Vflow.Proofs.SflowSpec
 import Vflow.Proofs.PacketSpec
+import Vflow.Gen.SflowLayouts
 /-!
 # C07 — sFlow samples and counters are decoded field for field
 
@@ -140,5 +141,22 @@ set_option maxRecDepth 20000 in
 example : decode [] (encodeSflow sample) = .ok (expected sample) ∧
     (expected sample).samples.length = 1 ∧ (expected sample).counters.length = 1 ∧
     ((expected sample).samples.map (·.recs.sw)) = [some ⟨100, 5, 200, 6⟩] := by decide
+
+/-! ## Obligations over regenerated facts
+
+The read sequences of the six counter records and of the extended switch record, re-extracted from
+`sflow/flow_counter.go` / `sflow/flow_sample.go` on every run (field names and widths from the struct
+declarations), are the layouts the model decodes with.  A swapped, dropped or duplicated read (the F6
+defect was `[SrcVlan, SrcPriority, DstVlan, SrcPriority]`) is a failed obligation. -/
+
+theorem gen_counter_layouts :
+    Gen.SflowLayouts.genericIf = Sflow.genIntLayout ∧ Gen.SflowLayouts.ethernetIf = Sflow.ethIntLayout ∧
+    Gen.SflowLayouts.tokenRing = Sflow.trIntLayout ∧ Gen.SflowLayouts.vg = Sflow.vgIntLayout ∧
+    Gen.SflowLayouts.vlan = Sflow.vlanLayout ∧ Gen.SflowLayouts.processor = Sflow.procLayout := by
+  decide +kernel
+
+theorem gen_ext_switch_layout :
+    Gen.SflowLayouts.extSwitch = [("SrcVlan", 4), ("SrcPriority", 4), ("DstVlan", 4), ("DstPriority", 4)] := by
+  decide +kernel
 
 end Vflow.C07
